@@ -3,6 +3,7 @@ import Zstd.Driver.Headers
 import Zstd.Driver.Window
 import Zstd.Driver.Spec
 import Zstd.Driver.Dec
+import Zstd.Driver.Enc
 import Zstd.Driver.Io
 import Zstd.Driver.Cli
 import Zstd.Driver.DictBuilder
@@ -35,6 +36,7 @@ def step (st : St) (line : String) : St × String :=
   | "io" :: cmd :: args => (st, Io.handleStd cmd args)
   | "cli" :: cmd :: args => (st, Cli.handle cmd args)
   | "dictbuilder" :: cmd :: args => (st, DictBuilder.handle cmd args)
+  | "enc" :: cmd :: args => (st, Driver.Enc.handle cmd args)
   | "dec" :: args => let (s2, o) := Dec.step st.dec args; ({ st with dec := s2 }, o)
   | _ => (st, badOp)
 
